@@ -31,6 +31,7 @@ type mut struct {
 
 type cfg struct {
 	Name   string
+	Relist bool // the consumer also performs one relist (list snapshot, reconcile, watcher.reset) at a scheduler-chosen moment
 	Hist   []mut
 	Faults map[int]fakeapi.WatchFault // by watch call number
 	Mode   string
@@ -48,6 +49,7 @@ type inst struct {
 	finished bool
 	clock    int64
 	watches  int
+	relists  int
 }
 
 func history(n int) []mut {
@@ -68,7 +70,11 @@ func (in *inst) run() {
 		vs.Fail("reset | %v", err)
 		return
 	}
-	// the consumer: controller.run's loop restricted to the watch case
+	// the consumer: controller.run's loop restricted to the watch case (plus one relist when asked for)
+	relist := make(chan bool, 2)
+	if c.Relist {
+		go func() { relist <- true }()
+	}
 	consumerDone := make(chan bool)
 	go func() {
 		for {
@@ -85,6 +91,25 @@ func (in *inst) run() {
 					if !ok || hx.Ver(o) > hx.Ver(cur) {
 						in.cache[hx.Key(o)] = o
 					}
+				}
+			case <-relist:
+				// controller.run's list branch: reconcile the cache with the list, then reset the watch to the list's version
+				snap, rv := in.srv.Snapshot()
+				seen := map[string]bool{}
+				for _, o := range snap {
+					seen[hx.Key(o)] = true
+					if cur, ok := in.cache[hx.Key(o)]; !ok || hx.Ver(o) > hx.Ver(cur) {
+						in.cache[hx.Key(o)] = o
+					}
+				}
+				for k := range in.cache {
+					if !seen[k] {
+						delete(in.cache, k)
+					}
+				}
+				in.relists++
+				if err := w.Reset(fmt.Sprint(rv)); err != nil {
+					vs.Fail("reset | %v", err)
 				}
 			case <-quit:
 				consumerDone <- true
@@ -209,6 +234,16 @@ func Property() runner.Property {
 			out = append(out, scenario(cfg{Name: "error,error,ok/h2", Hist: history(2), Faults: map[int]fakeapi.WatchFault{1: W("error", 0), 2: W("error", 0)}, Mode: "S2", Bound: d}))
 			out = append(out, scenario(cfg{Name: "close@1,close@1/h3", Hist: history(3), Faults: map[int]fakeapi.WatchFault{1: W("close", 1), 2: W("close", 1)}, Mode: "S2", Bound: d}))
 			out = append(out, scenario(cfg{Name: "close@1/h1", Hist: history(1), Faults: map[int]fakeapi.WatchFault{1: W("close", 1)}, Mode: "S1"}))
+			// a relist in the middle of a delete + re-create: events the watcher took before the reset must not be applied after it
+			recreate := []mut{{"set", "a", "l=1"}, {"del", "a", ""}, {"set", "a", "l=1"}}
+			out = append(out, scenario(cfg{Name: "relist/set,del,set", Relist: true, Hist: recreate, Mode: "S2", Bound: d + 1}))
+			// ... and the re-create frame is lost by the stream (the list repairs it): a stale delete must not undo the list
+			out = append(out, scenario(cfg{Name: "relist+drop@2/set,del,set", Relist: true, Hist: recreate, Faults: map[int]fakeapi.WatchFault{1: W("drop", 2)}, Mode: "S2", Bound: d + 1}))
+			out = append(out, scenario(cfg{Name: "relist+close@2/set,del,set", Relist: true, Hist: recreate, Faults: map[int]fakeapi.WatchFault{1: W("close", 2)}, Mode: "S2", Bound: d + 1}))
+			out = append(out, scenario(cfg{Name: "relist/set,del", Relist: true, Hist: recreate[:2], Mode: "S2", Bound: d + 1}))
+			if tier == "thorough" {
+				out = append(out, scenario(cfg{Name: "relist/set", Relist: true, Hist: recreate[:1], Mode: "S1"}))
+			}
 			if tier == "thorough" {
 				out = append(out, scenario(cfg{Name: "close@1/h2", Hist: history(2), Faults: map[int]fakeapi.WatchFault{1: W("close", 1)}, Mode: "S1"}))
 				out = append(out, scenario(cfg{Name: "close@2/h3", Hist: history(3), Faults: map[int]fakeapi.WatchFault{1: W("close", 2)}, Mode: "S1"}))
